@@ -518,6 +518,27 @@ def run(F, rep, fm, reach):
                 for r, k, msg, smp in best[2]:
                     rep.bad(r, k, msg + ("" if len(evals) == 1 else " (no other production of this node fits better: %s)" % [e[0] for e in evals if e is not best][:4]),
                             "src/syntax/src/formatter.rs (expanded line %d)" % it["line"])
+    # ---- R12: a comma between two expressions keeps a blank after it (`a.x,b` is a swizzle subscript, `a.x, b` is two expressions)
+    rep.rule("C08-R12", "expression lists: a separator containing a comma that an emitter writes between expressions ends with a blank - the grammar reads `a.x,b` as ONE swizzle subscript, "
+                        "so a tight comma after an element ending in `.field` fuses it with the next element")
+    EXPRISH = {"expression", "argument", "subscript", "factor", "term", "pattern", "formula", "matrix_column", "table_column"}
+    n12 = 0
+    for name_, parts_ in sorted(templates.items()):
+        for prt in walk_parts(parts_):
+            if prt[0] != "list":
+                continue
+            sep_ = "".join(x[1] for x in prt[2] if x[0] == "lit")
+            if "," not in sep_:
+                continue
+            renders = {y[2] for y in walk_parts(prt[3]) if y[0] == "fld" and len(y) > 2}
+            if not (renders & EXPRISH):
+                continue
+            n12 += 1
+            ok = re.search(r",\s+$", sep_) is not None
+            rep.check(ok, "C08-R12", "%s:%s" % (name_, top(prt[1])),
+                      "Formatter::%s separates the expressions of `%s` with `%s` (no blank after the comma): an element ending in a field access followed by a name (`a.x,b`) re-parses as a single swizzle subscript" % (name_, top(prt[1]), sep_),
+                      "src/syntax/src/formatter.rs", sample={"emitter": name_, "list": top(prt[1]), "separator": sep_})
+    rep.floor("C08-R12", "comma-separated expression lists", n12, 4)
     rep.floor("C08-R7", "emitter/parser pairs compared on field order", n7, 25)
     rep.floor("C08-R8", "delimiter gaps compared", n8, 60)
     for u in undecided[:80]:
